@@ -210,11 +210,11 @@ def jsOut (n : Node) : Option String :=
   | .ok (.s t) => some (String.ofList t)
   | _ => none
 
-/-- D1: a declared property whose name is a key of `ast.variable.KNOWN_PROPERTIES` is READ through that table's object
-    (`_movie.actorList`), while `toJs` — and the translator's own assignment `this.actorList = …` — use `this.` -/
-theorem D1_witness :
-    jsOut (.leaf .definedProp (.s (S "actorList")) 0) = some "_movie.actorList" ∧
-    String.ofList (txJ (toJsE c0 (.var .prop "actorList".toList))) = "this.actorList" ∧ JsOkE (.var .prop "actorList".toList) = false := by
+/-- D1 (= F139, repaired in /repo c7a3b33 and followed by the model): a declared property whose name is also a key of
+    `ast.variable.KNOWN_PROPERTIES` is read through the script object, like its assignment and like `toJs`; it is inside the fragment -/
+theorem D1_fixed_F139 :
+    jsOut (.leaf .definedProp (.s (S "actorList")) 0) = some "this.actorList" ∧
+    String.ofList (txJ (toJsE c0 (.var .prop "actorList".toList))) = "this.actorList" ∧ JsOkE (.var .prop "actorList".toList) = true := by
   refine ⟨by decide +kernel, by decide +kernel, by decide +kernel⟩
 
 /-- D2: the first argument of a `LIST_FUNCTIONS` call, when a symbol, is printed as a global variable -/
